@@ -206,6 +206,9 @@ def report(ctx: Ctx, case: dict, fd, prop: str, do_minimise: bool = True):
         ctx.count(k, v)
     drv = ctx.driver("drv_db")
     done = set()
+    budget = getattr(ctx, "_minimise_budget", None)
+    if budget is None:
+        budget = ctx._minimise_budget = [4]          # minimise only the first few findings of a run
     for (cl, lab, detail) in fd.violations:
         if clause_property(cl) != prop:
             ctx.count(f"other-property-clause:{cl}")
@@ -214,8 +217,9 @@ def report(ctx: Ctx, case: dict, fd, prop: str, do_minimise: bool = True):
             continue
         done.add(cl)
         small = case
-        if do_minimise and len(case["ops"]) > 1 and not case.get("no_minimise"):
-            small = minimise(drv, case, ("F", cl), max_runs=60 if ctx.quick else 200)
+        if do_minimise and len(case["ops"]) > 1 and not case.get("no_minimise") and budget[0] > 0:
+            budget[0] -= 1
+            small = dict(minimise(drv, case, ("F", cl), max_runs=60 if ctx.quick else 200), minimised=True)
         ctx.violation(f"step specification clause violated: {cl}", small, {"first_at_step": lab, "detail": detail}, key=cl)
     kdone = set()
     for (what, lab, impl, model) in fd.mismatches:
@@ -223,8 +227,9 @@ def report(ctx: Ctx, case: dict, fd, prop: str, do_minimise: bool = True):
             continue
         kdone.add(what)
         small = case
-        if do_minimise and len(case["ops"]) > 1 and not case.get("no_minimise") and len(kdone) <= 2:
-            small = minimise(drv, case, ("K", what), max_runs=60 if ctx.quick else 200)
+        if do_minimise and len(case["ops"]) > 1 and not case.get("no_minimise") and len(kdone) <= 1 and budget[0] > 0:
+            budget[0] -= 1
+            small = dict(minimise(drv, case, ("K", what), max_runs=60 if ctx.quick else 200), minimised=True)
         ctx.mismatch(what, small, impl, model)
 
 
@@ -297,9 +302,9 @@ def run(ctx: Ctx):
                 "overlapping subspaces) + structured histories + int(size*frac) table. distinct = canonical JSON of the history; "
                 "non-trivial = history with at least one get_id")
     run_corpus(ctx, PROP, check_case)
-    budget = ctx.budget_s * (0.72 if ctx.quick else 0.85)
+    budget = ctx.budget_s * (0.68 if ctx.quick else 0.85)
     for c in cases(ctx):
-        if ctx.elapsed() > budget:
+        if ctx.elapsed() > budget or len(ctx.violations) + len(ctx.mismatches) >= 40:
             break
         check_case(ctx, c)
         ctx.case(c, nontrivial=any(o.get("op") == "get" for o in c.get("ops", [])))
